@@ -526,7 +526,8 @@ DFGRgetrig(int32 file_id, uint16 ref, DFGRrig *rig)
                     DFdifree(GroupID);
                     HGOTO_ERROR(DFE_READERROR, FAIL);
                 }
-                if ((ntstring[2] != 8) || (ntstring[1] != DFNT_UCHAR)) {
+                /* GR records its 8-bit images as DFNT_UINT8 in the RIGs it writes for these interfaces */
+                if ((ntstring[2] != 8) || (ntstring[1] != DFNT_UCHAR && ntstring[1] != DFNT_UINT8)) {
                     DFdifree(GroupID);
                     HGOTO_ERROR(DFE_BADCALL, FAIL);
                 }
